@@ -59,6 +59,10 @@ def fixed_programs():
     out.append({"cpu": "dspic", "shape": "plain", "items": [("org", N(0x100)), ("ins", "goto 0x123456"), ("ins", "call 0x7654")]})
     out.append({"cpu": "86000", "shape": "plain", "items": [("org", N(0x10)), ("ins", "mov #0x63,@r3"), ("db", "db", [N(200), N(201)])]})
     out.append({"cpu": "6502", "shape": "repeat", "items": [("org", N(0x200)), ("rep", 3, [("ins", "lda #1"), ("ins", "sta $4400")])]})
+    out.append({"cpu": "65816", "shape": "repeat", "items": [("org", N(0x8000)), ("rep", 3, [("ins", "ldy $44,x"), ("ins", "trb $44"),
+                ("ins", "cmp $4444,x")]), ("db", "db", [N(65), N(33)])]})
+    out.append({"cpu": "m8c", "shape": "repeat", "items": [("org", N(0x100)), ("rep", 3, [("ins", "mov REG[34], A"), ("ins", "cmp [123], 13")])]})
+    out.append({"cpu": "xtensa", "shape": "repeat", "items": [("org", N(0x100)), ("rep", 2, [("ins", "maxu a14, a6, a5"), ("ins", "ssa8b a2")])]})
     # one witness per known finding (the KNOWN-FINDING lines do not depend on the seed)
     out.append({"cpu": "msp430", "shape": "include", "items": [("org", N(0x200)), ("inc", "a.inc", [("lab", "l1"), ("ins", "mov.w #1234, r5"),
                 ("db", "db", [N(1), N(2)]), ("ins", "add.w r5, r6")]), ("ins", "nop")]})
